@@ -227,7 +227,7 @@ static int do_mask(void)
 }
 
 /* ---- C13.2 ---------------------------------------------------------------------------------------- */
-static struct vclass v_ret = {"pton/return-exceeds-length", 0, 0}, v_agree = {"pton/disagrees-with-libc", 0, 0};
+static struct vclass v_ret = {"pton/return-exceeds-length", 0, 0}, v_agree = {"pton/disagrees-with-libc", 0, 0}, v_bits = {"pton/prefix-length-not-set", 0, 0};
 static long n_calls, n_accept_plain, n_accept_mask, n_both, n_nontrivial;
 
 static void pton_string(const char *s, size_t len)
@@ -248,6 +248,8 @@ static void pton_string(const char *s, size_t len)
         n_calls++;
         if (r > len)
             report(&v_ret, "'%s' (mode %u) returned %u > length %zu", s, mode, r, len);
+        if (mode == 1 && r == len && r > 0 && *bits > 128)
+            report(&v_bits, "'%s' (mode %u) accepted (%u characters) but the prefix length is %s", s, mode, r, *bits == 0xdeadbeef ? "left unset" : "above 128");
         if (mode == 0 && r == len && r > 0) { plain_ok = 1; plain = *out; n_accept_plain++; }
         if (mode == 1 && r == len && r > 0) n_accept_mask++;
     }
@@ -287,8 +289,8 @@ static int do_pton(int maxlen, int part, int nparts)
         }
     }
     printf("{\"summary\":{\"strings_total\":%ld,\"calls\":%ld,\"accepted_plain\":%ld,\"accepted_with_mask\":%ld,\"both_parsers_accept\":%ld,\"nontrivial\":%ld,"
-           "\"classes\":{\"%s\":%ld,\"%s\":%ld}}}\n", idx, n_calls, n_accept_plain, n_accept_mask, n_both, n_nontrivial,
-           v_ret.name, v_ret.count, v_agree.name, v_agree.count);
+           "\"classes\":{\"%s\":%ld,\"%s\":%ld,\"%s\":%ld}}}\n", idx, n_calls, n_accept_plain, n_accept_mask, n_both, n_nontrivial,
+           v_ret.name, v_ret.count, v_agree.name, v_agree.count, v_bits.name, v_bits.count);
     return 0;
 }
 
